@@ -6,3 +6,8 @@ package core
 
 // C19: no process-wide state in the component library.
 //@ package-state props C19
+
+// A file writer renders a page somewhere (disk, memory); it does not touch the
+// local variables of its caller (assumed for every implementation).
+//@ iface FileWriter.WriteFile(file)
+//@   assigns H.core.*, H.html.*, H.gedcom.*, H.os.*, M.*, G.*, E.*, alloc
